@@ -21,14 +21,14 @@ func init() { Register("C15", "model_checking", C15) }
 
 // absProject is the abstract project of spec/project/ProjectOps.tla (services are 1..N).
 type absProject struct {
-	Enabled  []int               `json:"enabled"`
-	Disabled []int               `json:"disabled"`
-	Profiles []string            `json:"profiles"`
-	Sprof    [][]string          `json:"sprof"`
-	Req      [][]int             `json:"req"`
-	Opt      [][]int             `json:"opt"`
+	Enabled  []int                 `json:"enabled"`
+	Disabled []int                 `json:"disabled"`
+	Profiles []string              `json:"profiles"`
+	Sprof    [][]string            `json:"sprof"`
+	Req      [][]int               `json:"req"`
+	Opt      [][]int               `json:"opt"`
 	Uses     []map[string][]string `json:"uses"`
-	Decl     map[string][]string `json:"decl"`
+	Decl     map[string][]string   `json:"decl"`
 }
 
 type absOp struct {
@@ -365,7 +365,6 @@ func c15Step(c *core.Ctx, real *types.Project, pre absProject, o absOp, n int) (
 	ev.post = absOf(q, n)
 	return ev, q
 }
-
 
 // c15Judge lets TLC judge recorded transitions; returns indices (0-based) of violations and drifts.
 func c15Judge(c *core.Ctx, name string, n int, events []c15Event) (bad, drift []int, ok bool) {
